@@ -87,6 +87,11 @@ Proof.
   intros A B w1 w2 r1 k a b H1 H2 pos rest. unfold wseq, rbind.
   rewrite <- app_assoc, H1. rewrite H2. rewrite blen_app. f_equal. f_equal. f_equal. lia.
 Qed.
+Lemma wr_rd_ext : forall {A} (w w' : wr) (r : rdr A) a,
+  (forall pos, w pos = w' pos) -> wr_rd w r a -> wr_rd w' r a.
+Proof. intros A w w' r a E H pos rest. rewrite <- E. apply H. Qed.
+Lemma wseq_nil_r : forall (w : wr) pos, (w +++ w_raw []) pos = w pos.
+Proof. intros. unfold wseq, w_raw. apply app_nil_r. Qed.
 Lemma wr_rd_ret : forall {A} (a : A), wr_rd (w_raw []) (rret a) a.
 Proof. intros A a pos rest. unfold w_raw, rret. cbn [app]. rewrite blen_nil. f_equal. f_equal. f_equal. lia. Qed.
 (* a reader that ends with a pure post-processing step *)
@@ -113,8 +118,198 @@ Lemma wr_rd_uint : forall ned (n : nat) v, (0 < n)%nat -> 0 <= v < 256 ^ Z.of_na
 Proof.
   intros ned n v Hn Hv. unfold r_uint.
   eapply wr_rd_bind; [apply wr_rd_pad; lia|].
-  replace (w_raw (le_bytes n v)) with (w_raw (le_bytes n v) +++ w_raw []).
-  2:{ unfold wseq, w_raw. apply FunctionalExtensionality.functional_extensionality. intros. apply app_nil_r. }
+  apply (wr_rd_ext (w_raw (le_bytes n v) +++ w_raw [])); [apply wseq_nil_r|].
   eapply wr_rd_bind; [apply wr_rd_bytes, blen_le_bytes|].
   unfold int_val. rewrite (le_val_le_bytes_small n v Hv). apply wr_rd_ret.
 Qed.
+
+(* ------------------------------------------------------------------ machine integers *)
+Lemma wrap_i32_u32 : forall v, in_i32 v -> wrap_i32 (wrap_u32 v) = v.
+Proof. unfold in_i32, i32_min, i32_max, wrap_i32, wrap_u32, two32. intros. lia. Qed.
+Lemma wrap_u32_range : forall v, 0 <= wrap_u32 v < 256 ^ 4.
+Proof. intros. unfold wrap_u32, two32. change (256 ^ 4) with 4294967296. apply Z.mod_pos_bound. lia. Qed.
+Lemma wrap_u32_small : forall v, in_u32 v -> wrap_u32 v = v.
+Proof. unfold in_u32, u32_max, wrap_u32, two32. intros. apply Z.mod_small. lia. Qed.
+Lemma wrap_u32_i32 : forall v, in_u32 v -> wrap_u32 (wrap_i32 v) = v.
+Proof. unfold in_u32, u32_max, wrap_i32, wrap_u32, two32. intros. lia. Qed.
+Lemma wrap_i16_u16 : forall v, -32768 <= v <= 32767 -> wrap_i16 (wrap_u16 v) = v.
+Proof. unfold wrap_i16, wrap_u16. intros. lia. Qed.
+Lemma wrap_u16_range : forall v, 0 <= wrap_u16 v < 256 ^ 2.
+Proof. intros. unfold wrap_u16. change (256 ^ 2) with 65536. apply Z.mod_pos_bound. lia. Qed.
+Lemma wrap_u16_small : forall v, 0 <= v <= 65535 -> wrap_u16 v = v.
+Proof. unfold wrap_u16. intros. apply Z.mod_small. lia. Qed.
+
+Lemma wr_rd_u16 : forall ned v, 0 <= v <= 65535 -> wr_rd (w_u16 v) (r_u16 ned false) v.
+Proof. intros. unfold w_u16, r_u16. apply (wr_rd_uint ned 2 v); [lia|]. change (256 ^ Z.of_nat 2) with 65536. lia. Qed.
+Lemma wr_rd_u32 : forall ned v, in_u32 v -> wr_rd (w_u32 v) (r_u32 ned false) v.
+Proof.
+  intros ned v H. unfold w_u32, r_u32. apply (wr_rd_uint ned 4 v); [lia|].
+  change (256 ^ Z.of_nat 4) with 4294967296. unfold in_u32, u32_max in H. lia.
+Qed.
+Lemma wr_rd_i32 : forall ned v, in_i32 v -> wr_rd (w_u32 (wrap_u32 v)) (r_i32 ned false) v.
+Proof.
+  intros ned v H. unfold r_i32.
+  rewrite <- (wrap_i32_u32 v H) at 2.
+  apply (wr_rd_map (w_u32 (wrap_u32 v)) (r_uint ned false 4) wrap_i32 (wrap_u32 v)).
+  apply (wr_rd_uint ned 4); [lia|]. apply wrap_u32_range.
+Qed.
+Lemma wr_rd_i16 : forall ned v, -32768 <= v <= 32767 -> wr_rd (w_u16 (wrap_u16 v)) (r_i16 ned false) v.
+Proof.
+  intros ned v H. unfold r_i16.
+  rewrite <- (wrap_i16_u16 v H) at 2.
+  apply (wr_rd_map (w_u16 (wrap_u16 v)) (r_uint ned false 2) wrap_i16 (wrap_u16 v)).
+  apply (wr_rd_uint ned 2); [lia|]. apply wrap_u16_range.
+Qed.
+Lemma wr_rd_xbool : forall b, wr_rd (w_bool b) x_r_bool b.
+Proof. intros b pos rest. destruct b; reflexivity. Qed.
+Lemma wr_rd_cbool : forall b, wr_rd (w_bool b) cdr_r_bool b.
+Proof. intros b pos rest. destruct b; reflexivity. Qed.
+
+(* strings: length + 1 must fit u32 (any String that fits a parameter does) *)
+Lemma wr_rd_xstring : forall s, utf8_valid s = true -> blen s + 1 <= u32_max ->
+  wr_rd (x_w_string s) (x_r_string false) s.
+Proof.
+  intros s Hu Hl. unfold x_w_string, x_r_string.
+  assert (Hr : in_u32 (blen s + 1)) by (unfold in_u32; pose proof (blen_nonneg s); lia).
+  rewrite (wrap_u32_small _ Hr).
+  eapply wr_rd_bind; [apply wr_rd_u32; exact Hr|].
+  replace (Z.max 0 (blen s + 1 - 1)) with (blen s) by (pose proof (blen_nonneg s); lia).
+  eapply wr_rd_bind; [apply wr_rd_bytes; reflexivity|].
+  apply (wr_rd_ext (w_u8 0 +++ w_raw [])); [intros; apply wseq_nil_r|].
+  eapply wr_rd_bind; [apply wr_rd_u8|]. rewrite Hu. apply wr_rd_ret.
+Qed.
+Lemma wr_rd_cstring : forall s, utf8_valid s = true -> blen s + 1 <= u32_max ->
+  wr_rd (cdr_w_string s) (cdr_r_string false) s.
+Proof.
+  intros s Hu Hl. unfold cdr_w_string, cdr_r_string.
+  assert (Hr : in_u32 (blen s + 1)) by (unfold in_u32; pose proof (blen_nonneg s); lia).
+  rewrite (wrap_u32_small _ Hr).
+  eapply wr_rd_bind; [apply wr_rd_u32; exact Hr|].
+  assert (E : (blen s + 1 =? 0) = false) by (apply Z.eqb_neq; pose proof (blen_nonneg s); lia).
+  rewrite E. replace (blen s + 1 - 1) with (blen s) by lia.
+  eapply wr_rd_bind; [apply wr_rd_bytes; reflexivity|].
+  apply (wr_rd_ext (w_u8 0 +++ w_raw [])); [intros; apply wseq_nil_r|].
+  eapply wr_rd_bind; [apply wr_rd_u8|]. rewrite Hu. apply wr_rd_ret.
+Qed.
+
+(* sequences *)
+Lemma r_seq_f_ok : forall {A} (w : A -> wr) (elem : rdr A) (l : list A) (fuel : nat) pos rest,
+  (forall a, In a l -> wr_rd (w a) elem a) -> (length l <= fuel)%nat ->
+  r_seq_f fuel elem (Z.of_nat (length l)) (pos, w_list w l pos ++ rest)
+  = Ok (l, (pos + blen (w_list w l pos), rest)).
+Proof.
+  intros A w elem l. induction l as [|a l IH]; intros fuel pos rest Hok Hf.
+  - destruct fuel; cbn; rewrite Z.add_0_r; reflexivity.
+  - destruct fuel as [|f]; [cbn in Hf; lia|].
+    cbn [r_seq_f]. replace (Z.of_nat (length (a :: l)) <=? 0) with false
+      by (symmetry; apply Z.leb_gt; cbn [length]; lia).
+    cbn [w_list]. unfold wseq. rewrite <- app_assoc.
+    rewrite (Hok a (or_introl eq_refl)).
+    replace (Z.of_nat (length (a :: l)) - 1) with (Z.of_nat (length l)) by (cbn [length]; lia).
+    rewrite IH; [|intros; apply Hok; right; assumption|cbn [length] in Hf; lia].
+    rewrite blen_app. f_equal. f_equal. f_equal. lia.
+Qed.
+Lemma length_w_list_ge : forall {A} (w : A -> wr) (l : list A) pos,
+  (forall a p, In a l -> 1 <= blen (w a p)) -> Z.of_nat (length l) <= blen (w_list w l pos).
+Proof.
+  intros A w l. induction l as [|a l IH]; intros pos H.
+  - cbn. lia.
+  - cbn [w_list length]. unfold wseq. rewrite blen_app.
+    pose proof (H a pos (or_introl eq_refl)).
+    pose proof (IH (pos + blen (w a pos)) (fun x p Hx => H x p (or_intror Hx))). lia.
+Qed.
+Lemma wr_rd_seq : forall {A} (w : A -> wr) (elem : rdr A) (l : list A),
+  (forall a, In a l -> wr_rd (w a) elem a) -> (forall a p, In a l -> 1 <= blen (w a p)) ->
+  wr_rd (w_list w l) (r_seq elem (Z.of_nat (length l))) l.
+Proof.
+  intros A w elem l Hok Hlen pos rest. unfold r_seq. cbn [snd].
+  apply r_seq_f_ok; [assumption|].
+  pose proof (length_w_list_ge w l pos Hlen). rewrite app_length. unfold blen in H. lia.
+Qed.
+
+(* ------------------------------------------------------------------ parameter framing *)
+Definition padv (v : bytes) : bytes := v ++ zeros ((- blen v) mod 4).
+Definition param_bytes (pid : Z) (v : bytes) : bytes :=
+  le_bytes 2 (wrap_u16 pid) ++ le_bytes 2 (wrap_u16 (blen v)) ++ v.
+
+Lemma blen_padv : forall v, blen (padv v) = padded_len (blen v).
+Proof.
+  intros. unfold padv, padded_len. rewrite blen_app, blen_zeros; [reflexivity|].
+  apply Z.mod_pos_bound; lia.
+Qed.
+Lemma blen_padv_mod4 : forall v, blen (padv v) mod 4 = 0.
+Proof. intros. rewrite blen_padv. unfold padded_len. pose proof (blen_nonneg v). lia. Qed.
+Lemma blen_param_bytes : forall pid v, blen (param_bytes pid v) = 4 + blen v.
+Proof. intros. unfold param_bytes. rewrite !blen_app, !blen_le_bytes. lia. Qed.
+
+Lemma w_u16_aligned : forall v pos, pos mod 2 = 0 -> w_u16 v pos = le_bytes 2 v.
+Proof.
+  intros. unfold w_u16, wseq, w_pad, w_raw.
+  replace ((- pos) mod 2) with 0 by lia. reflexivity.
+Qed.
+
+Lemma write_cdr_parameter_eq : forall buf pid (w : wr),
+  blen buf mod 4 = 0 ->
+  write_cdr_parameter buf pid w = buf ++ param_bytes pid (padv (w (blen buf + 4))).
+Proof.
+  intros buf pid w Hb. unfold write_cdr_parameter.
+  assert (E0 : (w_u16 (wrap_u16 pid) +++ w_u16 0) (blen buf) = le_bytes 2 (wrap_u16 pid) ++ [0; 0]).
+  { unfold wseq. rewrite (w_u16_aligned _ (blen buf)) by lia.
+    rewrite blen_le_bytes. rewrite w_u16_aligned by (change (Z.of_nat 2) with 2; lia). reflexivity. }
+  rewrite E0.
+  set (V := w (blen (buf ++ le_bytes 2 (wrap_u16 pid) ++ [0; 0]))).
+  assert (Ep : blen (buf ++ le_bytes 2 (wrap_u16 pid) ++ [0; 0]) = blen buf + 4).
+  { rewrite !blen_app, blen_le_bytes. reflexivity. }
+  assert (EV : V = w (blen buf + 4)) by (unfold V; rewrite Ep; reflexivity).
+  rewrite Ep.
+  assert (Epad : (- blen ((buf ++ le_bytes 2 (wrap_u16 pid) ++ [0; 0]) ++ V)) mod 4 = (- blen V) mod 4).
+  { rewrite blen_app, Ep. pose proof (blen_nonneg V). lia. }
+  rewrite Epad.
+  replace (blen (((buf ++ le_bytes 2 (wrap_u16 pid) ++ [0; 0]) ++ V) ++ zeros ((- blen V) mod 4)) - (blen buf + 4))
+    with (blen (padv V)).
+  2:{ unfold padv. rewrite !blen_app, blen_le_bytes. cbn [blen length]. lia. }
+  unfold patch2.
+  replace (blen buf + 4 - 2) with (blen (buf ++ le_bytes 2 (wrap_u16 pid))) by (rewrite blen_app, blen_le_bytes; lia).
+  replace (((buf ++ le_bytes 2 (wrap_u16 pid) ++ [0; 0]) ++ V) ++ zeros ((- blen V) mod 4))
+    with ((buf ++ le_bytes 2 (wrap_u16 pid)) ++ ([0; 0] ++ padv V)).
+  2:{ unfold padv. rewrite <- !app_assoc. reflexivity. }
+  rewrite take_app_exact.
+  replace (blen (buf ++ le_bytes 2 (wrap_u16 pid)) + 2) with (blen ((buf ++ le_bytes 2 (wrap_u16 pid)) ++ [0; 0]))
+    by (rewrite (blen_app _ [0; 0]); reflexivity).
+  rewrite (app_assoc (buf ++ le_bytes 2 (wrap_u16 pid)) [0; 0] (padv V)).
+  rewrite drop_app_exact.
+  unfold param_bytes. rewrite EV, <- !app_assoc. reflexivity.
+Qed.
+
+Lemma write_cdr_parameter_aligned : forall buf pid (w : wr),
+  blen buf mod 4 = 0 -> blen (write_cdr_parameter buf pid w) mod 4 = 0.
+Proof.
+  intros. rewrite write_cdr_parameter_eq by assumption.
+  rewrite blen_app, blen_param_bytes. pose proof (blen_padv_mod4 (w (blen buf + 4))). lia.
+Qed.
+
+(* ------------------------------------------------------------------ one iterator step *)
+Lemma le_bytes_2 : forall x, le_bytes 2 x = [x mod 256; (x / 256) mod 256].
+Proof. reflexivity. Qed.
+Lemma le_val_2 : forall x, 0 <= x < 65536 -> x mod 256 + 256 * ((x / 256) mod 256 + 256 * 0) = x.
+Proof. intros. lia. Qed.
+
+Definition pid_ok (pid : Z) : Prop := -32768 <= pid <= 32767 /\ pid <> 1.
+
+Lemma pl_next_param : forall pid v rest, pid_ok pid -> blen v <= 65535 ->
+  pl_next false (param_bytes pid v ++ rest) = PItem pid v rest.
+Proof.
+  intros pid v rest [Hr Hn1] Hl. unfold param_bytes. rewrite !le_bytes_2.
+  cbn [app pl_next int_val le_val].
+  pose proof (blen_nonneg v) as Hv0.
+  rewrite (le_val_2 (wrap_u16 pid)) by (pose proof (wrap_u16_range pid); change (256 ^ 2) with 65536 in *; lia).
+  rewrite (le_val_2 (wrap_u16 (blen v))) by (pose proof (wrap_u16_range (blen v)); change (256 ^ 2) with 65536 in *; lia).
+  rewrite (wrap_i16_u16 pid Hr), (wrap_u16_small (blen v)) by lia.
+  replace (pid =? 1) with false by (symmetry; apply Z.eqb_neq; assumption).
+  rewrite (shorter_app_false v rest (blen v) eq_refl). cbn [orb].
+  rewrite take_app_exact, drop_app_exact. reflexivity.
+Qed.
+Lemma pl_next_sentinel : forall be junk, pl_next be ([1; 0; 0; 0] ++ junk) = PEnd.
+Proof. intros [|] junk; reflexivity. Qed.
+Lemma pl_header_is_param : PL_HEADER = param_bytes 768 [].
+Proof. reflexivity. Qed.
